@@ -19,6 +19,18 @@ CHECKS: dict[str, tuple[str, str, str, str]] = {
         "Trusted: CPython ast, the tabulator (sa/tab.py). Not decided: lower layers (C02-C06).",
         "DESIGN.md §3 C01",
     ),
+    "C03": (
+        "regular-language equivalence (regex AST -> NFA/DFA product) + decision-table tabulation + forwarding dataflow",
+        "Decides, for file/directory names of any length, that the folded ignore tables denote exactly the"
+        " specified name languages (DFA product with shortest witness), that is_path_ignored's decision"
+        " table over 19 opaque atoms equals the specified exclusion predicate on every path, that iter_files"
+        " prunes/yields accordingly, that every call chain enumerating files forwards the include flags, the"
+        " VCS strategy and the subset unchanged, and that VCS readers' flags and separators agree. Necessary"
+        " structural conditions decided for all paths/names; Git's own ignore answer is an external run-time"
+        " oracle and is not decided.",
+        "Trusted: CPython ast, re._parser, sa/relang.py, sa/tab.py, sa/fold.py. Names exclude '/', NUL, CR, LF.",
+        "DESIGN.md §3 C03",
+    ),
 }
 
 PENDING_REASON = "check not implemented yet (build in progress; see DESIGN.md §7)"
